@@ -888,4 +888,35 @@ theorem C14_agree_interpreted_under_validator (env : Env) (fe : FM.Env α) (inpu
   rw [e1, e3, e5]
   exact ⟨rfl, rfl⟩
 
+/-! non-vacuity: `>> a: b⏎>> c: d⏎x`, no front matter, a validator that excludes the first entry with a warning
+    and lets the second pass without std checks: both entry points have output, the map is `c: d` in both, both
+    reports start with the validator's warning (labels: key span, value span) -/
+def C14_exInputV : List Char := ">> a: b\n>> c: d\nx".toList
+def C14_exValV : Nat → SM.Y → SM.Y → FM.Verdict := fun n _ _ => if n = 0 then ⟨.warning, false, true⟩ else ⟨.ok, true, false⟩
+
+example : parseFrontmatter C14_exCs C14_exInputV = none ∧
+    ((MV.parseRecipeV (α := Rat) C14_exEnv0 (some C14_exValV) C14_exInputV).output.map (·.metaMap)) =
+      some [("c".toList, "d".toList)] ∧
+    ((MV.parseMetadataV (α := Rat) C14_exEnv0 (some C14_exValV) C14_exInputV).output.map (·.metaMap)) =
+      some [("c".toList, "d".toList)] ∧
+    (MV.parseRecipeV (α := Rat) C14_exEnv0 (some C14_exValV) C14_exInputV).diags.toList.map (fun d => (d.kind, d.labels)) =
+      [("metadata-validator", [⟨2, 4⟩, ⟨5, 7⟩]), ("meta-deprecated", [⟨2, 7⟩, ⟨10, 15⟩])] ∧
+    (MV.parseMetadataV (α := Rat) C14_exEnv0 (some C14_exValV) C14_exInputV).diags.toList.map (fun d => (d.kind, d.labels)) =
+      [("metadata-validator", [⟨2, 4⟩, ⟨5, 7⟩]), ("meta-deprecated", [⟨2, 7⟩, ⟨10, 15⟩])] := by
+  have h : parseFrontmatter C14_exCs C14_exInputV = none := by decide
+  have hl : lex C14_exCs C14_exInputV = lexFuel C14_exCs 17 0 C14_exInputV := lexFrom_eq_fuel _ _ _ _ (by decide)
+  refine ⟨h, ?_, ?_, ?_, ?_⟩
+  · unfold MV.parseRecipeV pullEvents
+    simp only [C14_exEnv0, h, hl]
+    decide +kernel
+  · unfold MV.parseMetadataV pullMetaEvents
+    simp only [C14_exEnv0, h, hl]
+    decide +kernel
+  · unfold MV.parseRecipeV pullEvents
+    simp only [C14_exEnv0, h, hl]
+    decide +kernel
+  · unfold MV.parseMetadataV pullMetaEvents
+    simp only [C14_exEnv0, h, hl]
+    decide +kernel
+
 end Cook
